@@ -1,7 +1,10 @@
 #!/usr/bin/env python3
 import json, sys
-sys.path.insert(0, "/verif/checks")
-import registry
+import glob, os
+class registry: pass
+registry.CLAIMS = {os.path.basename(f)[:-5]: json.load(open(f)) for f in sorted(glob.glob("/verif/checks/claims/C*.json"))}
+registry.REASON_NOT_YET = "check not built yet in this session; planned (see DESIGN.md §6) — not claimed until its proof and tie run"
+registry.REASONS = json.load(open("/verif/checks/claims/not_applicable.json")) if os.path.exists("/verif/checks/claims/not_applicable.json") else {}
 props = [json.loads(l)["id"] for l in open("/verif/properties.jsonl")]
 baseline = json.load(open("/root/.vp/BASELINE.json"))["cmd"] if True else ""
 m = {
